@@ -26,9 +26,17 @@ ANCHORS = [
     ("buidl/witness.py", "Witness.has_annex"), ("buidl/witness.py", "Witness.control_block"), ("buidl/witness.py", "Witness.tap_script"),
     ("buidl/witness.py", "Witness.tap_leaf"), ("buidl/taproot.py", "TapLeaf.hash"), ("buidl/taproot.py", "ControlBlock.parse"),
     ("buidl/script.py", "RedeemScript.convert"), ("buidl/script.py", "WitnessScript.convert"), ("buidl/script.py", "P2PKHScriptPubKey.__init__"),
+    ("buidl/tx.py", "Tx.finalize_p2tr_multisig"), ("buidl/tx.py", "Tx.initialize_p2tr_multisig"),
+    ("buidl/tx.py", "Tx.get_sig_legacy"), ("buidl/tx.py", "Tx.get_sig_segwit"), ("buidl/tx.py", "Tx.get_sig_taproot"),
+    ("buidl/tx.py", "Tx.check_sig_legacy"), ("buidl/tx.py", "Tx.check_sig_segwit"),
+    ("buidl/op.py", "op_checksig"), ("buidl/op.py", "op_checksig_schnorr"), ("buidl/op.py", "op_checksigadd_schnorr"),
     ("buidl/phash.py", "tagged_hash"), ("buidl/phash.py", "hash_tapsighash"), ("buidl/phash.py", "hash_tapleaf"),
 ]
-RULE = ("objects are reused: every single query is asked twice of the same object; histories interleave queries for different "
+RULE = ("digest consumers: real signatures (library signer) over the SPECIFICATION's digest for each signer's own hash type are fed to "
+        "verify_input (P2PKH, P2WPKH, P2SH-P2WPKH, P2TR key path with/without annex: accepted; over another hash type's digest: "
+        "refused; each object asked twice) and to finalize_p2tr_multisig on k-of-n tapscript multisigs whose co-signers use "
+        "different hash types, in both orders, with wrong-digest and missing signatures, the same object finalised twice.  "
+        "Objects are reused: every single query is asked twice of the same object; histories interleave queries for different "
         "inputs / hash types / algorithms on ONE Tx object, repeat queries, mutate IN PLACE what the inputs hold (tap script, control "
         "block, annex, stack items, witness script, redeem script, hash inside the spent scriptPubKey, pushes inside output "
         "scripts) next to edits of the transaction fields, and ask the same question again after every edit.  "
@@ -52,6 +60,11 @@ CLAUSES = {
     "history independence: every query answers for the current fields, after any operations":
         "proved (history_independent, query_pure, requery_after_witness_edit: annex, ext_flag and the tap leaf hash are functions "
         "of the current witness items) for the repaired code; the memoising variant fails: F05d_witness",
+    "the digest the library VERIFIES (consumers: finalize_p2tr_multisig, op_checksig / op_checksig_schnorr / op_checksigadd_schnorr)":
+        "proved for the selection logic of finalize_p2tr_multisig (finalize_p2tr_multisig_uses_each_sig_hashtype, "
+        "schnorr_sig_hashtype: every signature is matched against the digest of its own hash type); the op_* paths and the "
+        "final verify_input are exercised with real signatures over the specification's digests (accept own, refuse other, "
+        "mixed hash types in both orders, finalised twice) — correspondence + predicate, the interpreter itself is C06/C07",
     "the source is the repaired variant (no memoisation, has_annex needs two elements)":
         "re-extracted on every run (Gen.sighashMemo, Gen.annexMinItems) and compared with Cfg.repaired by the harness",
     "all 256 hash-type bytes (outside the quantifier)": "proved on the 160 bytes where `& 3` and `& 0x1f` decode alike "
@@ -628,6 +641,174 @@ def p_history(c):
 PREDICATES = {"history": p_history}
 
 
+
+# --------------------------------------------------------------------------------- digest CONSUMERS
+# Signatures are made (with the library's own signer, C01 / C02) over the digest the Lean SPECIFICATION defines for the
+# signer's own hash type; the library's consumers of digests must recognise exactly those:
+#   verify_input → op_checksig / op_checksig_schnorr (hash type = last byte / 64-byte default)
+#   Tx.finalize_p2tr_multisig (which digest each co-signer's signature is matched against), then op_checksigadd_schnorr
+_PRIVS = []
+
+
+def priv_pool():
+    if not _PRIVS:
+        from buidl.ecc import PrivateKey
+        for k in (0x1111, 0x2222, 0x3333, 0x4444, 0x5555):
+            _PRIVS.append(PrivateKey(k))
+    return _PRIVS
+
+
+def consumer_worker(job):
+    """runs in a pool process: sign over the given digests, feed the real consumer, report what it did"""
+    import buidl.tx as TX  # noqa
+    from buidl.ecc import SchnorrSignature
+    privs = priv_pool()
+    with contextlib.redirect_stdout(io.StringIO()):
+        if job["what"] == "checksig":
+            priv = privs[job["key"]]
+            if job["schnorr"]:
+                body = priv.sign_schnorr(unx(job["digest"]), b"\x00" * 32).serialize()
+                elem = body + (bytes([job["byte"]]) if job["byte"] else b"")
+            else:
+                elem = priv.sign(int(job["digest"])).der() + bytes([job["byte"]])
+            tx = copy_desc(job["tx"])
+            inp = tx["ins"][job["i"]]
+            if job["where"] == "script_sig":
+                inp["script_sig"]["cmds"][0] = elem
+            else:
+                inp["witness"][0] = elem
+            obj = T.p_tx(T.Toks(T.t_tx(tx).split(" ")))
+            res = []
+            for _ in range(2):                      # the same object is asked twice
+                try:
+                    res.append(bool(obj.verify_input(job["i"])))
+                except Exception:
+                    res.append(False)
+            return {"res": res, "elem": xb(elem)}
+        # finalize_p2tr_multisig
+        from buidl.taproot import MultiSigTapScript, ControlBlock
+        pts = [privs[k].point for k in job["keys"]]
+        ts = MultiSigTapScript(pts, job["k"])
+        cb = ControlBlock.parse(job["cb"] if isinstance(job["cb"], bytes) else unx(job["cb"]))
+        tx = copy_desc(job["tx"])
+        i = job["i"]
+        tx["ins"][i]["witness"] = []
+        obj = T.p_tx(T.Toks(T.t_tx(tx).split(" ")))
+        obj.initialize_p2tr_multisig(i, cb, ts)
+        if [xb(x) for x in obj.tx_ins[i].witness.items] != [xb(x) for x in job["tx"]["ins"][i]["witness"]]:
+            raise MachineryError("harness: initialize_p2tr_multisig built another witness than the description")
+        made = {}
+        rounds = []
+        for rnd in job["rounds"]:
+            sigs = []
+            for s in rnd:
+                if s is None:
+                    sigs.append(b"")
+                    continue
+                key = (s["key"], s["signs"], s["byte"])
+                if key not in made:
+                    body = privs[s["key"]].sign_schnorr(unx(job["digests"][str(s["signs"])]), b"\x00" * 32).serialize()
+                    made[key] = body + (bytes([s["byte"]]) if s["byte"] else b"")
+                sigs.append(made[key])
+            try:
+                ok = bool(obj.finalize_p2tr_multisig(i, sigs))
+            except Exception:
+                ok = None
+            rounds.append({"sigs": [xb(x) for x in sigs], "ok": ok, "witness": [xb(x) for x in obj.tx_ins[i].witness.items]})
+        bad = []
+        for body in {x[:64] for r in rounds for x in map(unx, r["sigs"]) if x}:
+            try:
+                SchnorrSignature.parse(body)
+            except Exception:
+                bad.append(xb(body))
+        return {"rounds": rounds, "bad": bad, "points": [xb(p.xonly()) for p in ts.points]}
+
+
+def copy_desc(tx):
+    import copy
+    return copy.deepcopy(tx)
+
+
+def consumer_jobs(ctx, rng):
+    """descriptions of the consumer cases (no signing yet) and the specification requests for their digests"""
+    from buidl.helper import hash160
+    from buidl.taproot import MultiSigTapScript
+    privs = priv_pool()
+    jobs = []
+    # --- one signature, one input: verify_input must accept the signature over the spec digest of its own hash type and
+    #     refuse a signature over another hash type's digest carrying this hash-type byte
+    kinds = ["p2pkh", "p2wpkh", "p2sh_p2wpkh", "p2tr_key", "p2tr_key_annex"]
+    for n in range(ctx.n(20)):
+        kind = kinds[n % len(kinds)]
+        key = rng.randrange(len(privs))
+        priv = privs[key]
+        sec = priv.point.sec()
+        h160 = hash160(sec)
+        nin = rng.randrange(1, 4)
+        tx = gen_tx(rng, nin, rng.randrange(nin, 5), [rng.choice(KINDS)])      # an output for every input (SINGLE)
+        i = rng.randrange(len(tx["ins"]))
+        inp = tx["ins"][i]
+        ph = b"\x30" + b"\x01" * 70
+        if kind == "p2pkh":
+            inp.update(kind=kind, spk=T.d_script([0x76, 0xA9, h160, 0x88, 0xAC]), script_sig=T.d_script([ph, sec]), witness=[])
+        elif kind == "p2wpkh":
+            inp.update(kind=kind, spk=T.d_script([0, h160]), script_sig=T.d_script([]), witness=[ph, sec])
+        elif kind == "p2sh_p2wpkh":
+            red = b"\x00\x14" + h160
+            inp.update(kind=kind, spk=T.d_script([0xA9, hash160(red), 0x87]), script_sig=T.d_script([red]), witness=[ph, sec])
+        else:
+            w = [b"\x01" * 64] + ([b"\x50" + rbytes(rng, 7)] if kind.endswith("annex") else [])
+            inp.update(kind=kind, spk=T.d_script([0x51, priv.point.xonly()]), script_sig=T.d_script([]), witness=w)
+        schnorr = kind.startswith("p2tr")
+        hts = [h for h in STD if schnorr or h != 0]
+        ht = hts[n // len(kinds) % len(hts)] if n < 60 else rng.choice(hts)
+        other = rng.choice([h for h in hts if h != ht])
+        where = "script_sig" if kind == "p2pkh" else "witness"
+        for signs, expect in ((ht, True), (other, False)):
+            jobs.append({"what": "checksig", "tx": tx, "i": i, "key": key, "schnorr": schnorr, "byte": ht, "signs": signs,
+                         "where": where, "expect": expect, "kind": kind})
+    # --- tapscript multisig: co-signers with DIFFERENT hash types, both orders, wrong-digest and missing signatures,
+    #     and the same object finalised twice with signatures added in between
+    for n in range(ctx.n(16)):
+        nk = rng.choice([2, 2, 3])
+        keys = rng.sample(range(len(privs)), nk)
+        k = rng.choice([nk, nk, max(1, nk - 1)])
+        ts = MultiSigTapScript([privs[x].point for x in keys], k)
+        leaf = ts.tap_leaf()
+        internal = privs[0].point
+        cb = leaf.control_block(internal)
+        nin = rng.randrange(1, 3)
+        tx = gen_tx(rng, nin, rng.randrange(nin, 4), [rng.choice(KINDS)])
+        i = rng.randrange(len(tx["ins"]))
+        tx["ins"][i].update(kind="p2tr_script", spk=T.d_script(list(internal.p2tr_script(leaf.hash()).commands)),
+                            script_sig=T.d_script([]), witness=[ts.raw_serialize(), cb.serialize()])
+        def mk(kx, good=True):
+            byte = rng.choice(STD)
+            signs = byte if good else rng.choice([h for h in STD if h != byte])
+            return {"key": kx, "byte": byte, "signs": signs}
+        signers = rng.sample(keys, k)
+        first = [mk(kx) for kx in signers]
+        if n % 2 == 0 and len(first) >= 2:          # guaranteed mixed hash types: DEFAULT next to SINGLE|ANYONECANPAY
+            first[0].update(byte=0, signs=0)
+            first[1].update(byte=0x83, signs=0x83)
+        extra = []
+        if rng.random() < 0.5:
+            extra.append(mk(rng.choice(keys), good=False))   # a signature over another hash type's digest
+        if rng.random() < 0.3:
+            extra.append(None)
+        r1 = first + extra
+        rng.shuffle(r1)
+        rounds = [r1]
+        if n % 3 == 0:
+            r1b = list(reversed(r1))                # the same signatures in the other order, on the same object
+            rounds.append(r1b)
+        if n % 4 == 1:
+            rounds = [r1[:1], r1]                   # finalised early, then again with the signatures added in between
+        jobs.append({"what": "finalize", "tx": tx, "i": i, "keys": keys, "k": k, "cb": xb(cb.serialize()), "rounds": rounds,
+                     "internal": xb(internal.xonly())})
+    return jobs
+
+
 # --------------------------------------------------------------------------------- findings (all `fixed`): witnesses
 def finding_cases(rng):
     """(finding id, initial description, operations) — the defect reproduces when an answer differs from the specification"""
@@ -882,12 +1063,114 @@ def run(ctx):
             rec.disagreement("observation:O05h", {"line": line, "spec": sreq}, impl, want,
                              note="hash-type byte on which the decodings agree, yet the digest is not Core's")
 
+    # ---- digest consumers (signatures over the SPEC digest of each signer's own hash type)
+    run_consumers(ctx, drv, rng, rec)
+
     # ---- findings F05a..F05f (listed as fixed: a reproduction is a regression)
     for fid, tx0, full, specs in fcases:
         impl = impl_history(tx0, full)
         want = [next(spec_ans) for _ in specs]
         rec.finding(fid, impl != want, {"hist": hist_line(tx0, full), "specs": specs, "tx0": tx0, "ops": [list(o) for o in full],
                                         "impl": impl, "spec": want})
+
+
+
+def run_consumers(ctx, drv, rng, rec):
+    xonly_keys()
+    for p in priv_pool():                      # the internal key of the multisig cases must count as a valid x-only key
+        if p.point.xonly() not in _KEYS:
+            _KEYS.append(p.point.xonly())
+    judge_consumers(drv, consumer_jobs(ctx, rng), rec, workers=ctx.workers)
+
+
+def judge_consumers(drv, jobs, rec, parallel=True, workers=None):
+    from harness.common import pmap
+    # 1. the specification's digests
+    reqs = []
+    for j in jobs:
+        if j["what"] == "checksig":
+            j["_req"] = spec_line(j["tx"], q_auto(j["i"], j["signs"]))
+            reqs.append(j["_req"])
+        else:
+            hts = sorted({s["signs"] for r in j["rounds"] for s in r if s} | {s["byte"] for r in j["rounds"] for s in r if s})
+            j["_hts"] = hts
+            for h in hts:
+                reqs.append(spec_line(j["tx"], q_auto(j["i"], h)))
+    if any(r is None for r in reqs):
+        raise MachineryError("harness: a consumer case has no specification request")
+    ans = iter(drv.batch(reqs))
+    for j in jobs:
+        if j["what"] == "checksig":
+            j["digest"] = next(ans)
+        else:
+            j["digests"] = {str(h): next(ans) for h in j["_hts"]}
+    if any(v == REJECT for j in jobs for v in ([j.get("digest")] if j["what"] == "checksig" else j["digests"].values())):
+        raise MachineryError("harness: the specification refuses a consumer case")
+    # 2. sign and run the real consumers (EC arithmetic: spread over the cores)
+    clean = [{k: v for k, v in j.items() if not k.startswith("_")} for j in jobs]
+    results = pmap(consumer_worker, clean, workers=workers) if parallel else [consumer_worker(c) for c in clean]
+    # 3. decide
+    model_lines, model_jobs = [], []
+    for j, r in zip(jobs, results):
+        if j["what"] == "checksig":
+            case = {"consumer": {k: v for k, v in j.items() if not k.startswith("_")}}
+            kind = f"checksig:{j['kind']}"
+            want = [j["expect"], j["expect"]]
+            if r["res"] == want:
+                rec.ok(kind, repr((j["kind"], j["byte"], j["signs"], r["elem"]))[:300])
+                rec.count(f"checksig:{'accepts-own-digest' if j['expect'] else 'refuses-other-digest'}")
+            else:
+                rec.violation(kind, case, r["res"], want,
+                              note=f"verify_input with a signature over the specification's digest for hash type {j['signs']:#x} "
+                                   f"carrying hash-type byte {j['byte']:#x}")
+            continue
+        # finalize: expectation by construction, per round on the growing witness
+        wit = [xb(x) for x in j["tx"]["ins"][j["i"]]["witness"]]
+        points = r["points"]
+        key_of = {xb(priv_pool()[kx].point.xonly()): kx for kx in j["keys"]}
+        valid = []
+        for rnd, got in zip(j["rounds"], r["rounds"]):
+            picks = []
+            for pt in points:
+                pick = "x"
+                for s, sb in zip(rnd, got["sigs"]):
+                    if s and s["key"] == key_of[pt] and s["signs"] == s["byte"]:
+                        pick = sb
+                        break
+                picks.append(pick)
+            for s, sb in zip(rnd, got["sigs"]):
+                if s:
+                    valid.append((xb(priv_pool()[s["key"]].point.xonly()), j["digests"][str(s["signs"])], "x" + sb[1:129]))
+            wit = list(reversed(picks)) + wit
+            case = {"consumer": {k: v for k, v in j.items() if not k.startswith("_")}}
+            if got["witness"] == wit:
+                rec.ok("finalize:placement", repr((got["sigs"], wit))[:300])
+            else:
+                rec.violation("finalize:placement", case, got["witness"], wit,
+                              note="finalize_p2tr_multisig: every signature must be matched against the BIP341 digest of its OWN "
+                                   "hash type (co-signers: " + ", ".join(f"key{ s['key'] } byte { s['byte']:#x} signs { s['signs']:#x}" for s in rnd if s) + ")")
+            rec.count("finalize:mixed-hashtypes" if len({s["byte"] for s in rnd if s}) > 1 else "finalize:one-hashtype")
+            if rnd is j["rounds"][0]:
+                nvalid = sum(1 for p_ in picks if p_ != "x")
+                rec.count(f"finalize:verify_input={got['ok']}:valid={'k' if nvalid == j['k'] else ('<k' if nvalid < j['k'] else '>k')}")
+                if got["ok"] is not None and got["ok"] != (nvalid == j["k"]):
+                    rec.violation("finalize:verify_input", case, got["ok"], nvalid == j["k"],
+                                  note=f"{nvalid} co-signers signed the BIP341 digest of their own hash type (k = {j['k']}): "
+                                       "the finalised input must verify exactly when k did (op_checksigadd_schnorr takes each "
+                                       "signature's own hash type)")
+        # the model of the selection logic, round by round on the witness the implementation had
+        cur = copy_desc(j["tx"])
+        for rnd, got in zip(j["rounds"], r["rounds"]):
+            toks = ["finalize", T.t_tx(cur), str(j["i"]), str(len(points))] + points + [str(len(got["sigs"]))] + got["sigs"]
+            vs = sorted(set(valid))
+            toks += [str(len(vs))] + [f"{a} {b} {c}" for a, b, c in vs] + [str(len(r["bad"]))] + r["bad"]
+            model_lines.append(" ".join(toks))
+            model_jobs.append((j, got))
+            cur["ins"][j["i"]]["witness"] = [unx(x) for x in got["witness"]]
+    for (j, got), model in zip(model_jobs, drv.batch(model_lines)):
+        impl = " ".join([str(len(got["witness"]))] + got["witness"]) if got["ok"] is not None else REJECT
+        rec.compare("finalize:model", {"consumer": {k: v for k, v in j.items() if not k.startswith("_")}}, impl, model,
+                    determined=True, key=repr(got["sigs"])[:200], note="finalize_p2tr_multisig vs the model of its selection logic")
 
 
 def tag(tx, q):
@@ -904,6 +1187,16 @@ def replay(ctx, v):
         if case.get("spec") and impl != drv.one(case["spec"]):
             return True
         return impl != drv.one(model_line(case["line"]))
+    if "consumer" in case:
+        from harness.common import Recorder
+        job = _unjson(case["consumer"])
+        xonly_keys()
+        for p in priv_pool():
+            if p.point.xonly() not in _KEYS:
+                _KEYS.append(p.point.xonly())
+        tmp = Recorder("C05")
+        judge_consumers(drv, [job], tmp, parallel=False)
+        return bool(tmp.violations or tmp.disagreements)
     # a history: rebuild the initial object and apply the recorded operations to it IN PLACE, exactly as run() did
     tx0 = _unjson(case["tx0"])
     ops = [tuple(o) for o in _unjson(case["ops"])]
